@@ -308,6 +308,16 @@ func newVfGW(x *vfExec, cfg *vfGWCfg, msgs map[string]vfMsgSpec, extra ...Option
 	if cfg.IDFn == "content" {
 		opts = append(opts, WithMessageIdFn(vfContentID))
 	}
+	if cfg.IDFn == "topic-content" {
+		// every topic of the scenario gets the content hash as its own ID function (see topic()); the node-wide
+		// function must then never be consulted for a message of those topics, and it shows if it is: it answers with
+		// a fresh ID on every call, so nothing it names is ever recognised again
+		calls := 0
+		opts = append(opts, WithMessageIdFn(func(*pb.Message) string {
+			calls++
+			return fmt.Sprintf("node-wide-id-fn-call-%d", calls)
+		}))
+	}
 	if cfg.Extra["seqno_validator"] != "" {
 		g.meta = &vfMetaStore{m: map[peer.ID][]byte{}}
 		var vo []ValidatorOpt
@@ -590,6 +600,9 @@ func (g *vfGW) topic(t string) *Topic {
 	var topts []TopicOpt
 	if g.cfg.Extra["fanout_only"] == t {
 		topts = append(topts, FanoutOnly())
+	}
+	if g.cfg.IDFn == "topic-content" {
+		topts = append(topts, WithTopicMessageIdFn(vfContentID))
 	}
 	tp, err := g.n.ps.Join(t, topts...)
 	if err != nil {
